@@ -2146,6 +2146,29 @@ def c01_gen(tier, rng):
             toks[rng.randrange(len(toks))] = rng.choice(G.TOKEN_ALPHABET_FULL)
         src = G.render(toks, rng, "random")
         cases.append((G.script("H", C12_SETUP + ["evc smv " + hexs(src), "evc nrv " + hexs(src), "evc sfi " + hexs(src)]), {"kind": "program"}))
+    # Display of trees, Display / Debug of values and Display of errors (the formatting code is modelled too)
+    for _ in range(n // 3):
+        k = rng.random()
+        if k < 0.6:
+            raw = G.rand_seq(rng, 2) if rng.random() < 0.3 else G.rand_expr(rng, rng.randint(1, 5))
+            e = G.parenthesize_seq(raw) if raw[0] in ("tuple", "chain") else G.parenthesize(raw)
+            toks = G.flatten(e)
+            if rng.random() < 0.3 and toks:
+                toks[rng.randrange(len(toks))] = rng.choice(G.TOKEN_ALPHABET_FULL)
+            src = G.render(toks, rng, "space")
+        elif k < 0.8:
+            src = rng.choice(G.char_soup(rng, 1, 16))
+        else:
+            src = "%s(%s)" % (rng.choice(L.DOCUMENTED_BUILTINS), rng.choice(["a", "b", "c", "y", "(a, b)", "(c, 1)", "()", "1e300", "\"ä\\\\\"", "(y, y)", "-0.0", "0.1 + 0.2"]))
+        cases.append(("SHOW\t" + hexs(src), {"kind": "display"}))
+    # context histories (set / assign / clear / clone / toggle / call) and effectful programs
+    for _ in range(n // 5):
+        ops, _want = c04_history(rng, rng.randint(1, 12))
+        cases.append((G.script(rng.choice(["H", "H", "N"]), ops), {"kind": "history"}))
+    for _ in range(n // 5):
+        e = c08_program(rng)
+        src = G.render(G.flatten(e), None, "space")
+        cases.append((G.script("H", c08_setup() + ["ev smv " + hexs(src), "ev srv " + hexs(src)]), {"kind": "effects"}))
     return cases
 
 
@@ -2191,11 +2214,11 @@ def c01_oracle(case, out, model_out):
 
 PROPS["C01"] = {
     "gen": c01_gen, "oracle": c01_oracle, "special": c01_special, "release": True,
-    "rule": "every builtin x every value of the edge pool, all pairs of the small pool, random tuples up to arity 3, all shift amounts -70..139, all byte offsets of str::substring; all operators on all pairs; all token sequences of length <= 3 (quick) / 4 (thorough) through all 48 entry points; random token sequences, character soup (operators, quotes, backslashes, comment markers, exotic whitespace), random Unicode strings, generated programs with one token replaced, through string/tree, typed/untyped, shared/mutable entry points and the iterators, with Display and Debug of every result; debug (overflow checks) and release builds; 17 inputs of 4096 characters (deep nesting), one process each; every harness call under catch_unwind; non-trivial = every case",
+    "rule": "Display of trees and Display/Debug of values and errors compared as text with the modelled formatting code; context histories; every builtin x every value of the edge pool, all pairs of the small pool, random tuples up to arity 3, all shift amounts -70..139, all byte offsets of str::substring; all operators on all pairs; all token sequences of length <= 3 (quick) / 4 (thorough) through all 48 entry points; random token sequences, character soup (operators, quotes, backslashes, comment markers, exotic whitespace), random Unicode strings, generated programs with one token replaced, through string/tree, typed/untyped, shared/mutable entry points and the iterators, with Display and Debug of every result; debug (overflow checks) and release builds; 17 inputs of 4096 characters (deep nesting), one process each; every harness call under catch_unwind; non-trivial = every case",
     "nontrivial": lambda c, out: True,
     "assumptions": ["stack depth in bytes and allocation failure are runtime behaviour the model cannot exhibit: the theorem bounds the recursion depth by the input length, the 4096-character corpus is run on an 8 MiB main-thread stack",
                     "user functions do not panic (the property's hypothesis)",
-                    "std formatting of values, errors and trees is executed under the guard, not modelled"],
+                    "evalexpr's own Display / Debug code for values, operators, trees, tokens and errors is modelled (Model/Display.v) and compared as text; std's formatting of floats and of strings with {:?} is an oracle"],
 }
 
 
